@@ -13,10 +13,20 @@ from checks import c07
 
 def check_main():
     run = c07.main(prop="C01", want_exactness=False, with_language=True)
+    # runtime kernel leg (engine K): a syntax error once reported is recorded by add_error, with
+    # recovery on or off - the mechanism that keeps parse_into from returning Ok on a non-sentence
+    from checks import steps_common as SC
+    k = SC.k_leg("C01", SC.add_error() + SC.twins(("ll",)))
+    run.cov["runtime_kernel_leg"] = {kk: k.cov.get(kk) for kk in ("harnesses", "evaluations", "queries_discharged", "solver_time_s", "solver")}
+    run.cov["queries_discharged"] = run.cov.get("queries_discharged", 0) + (k.cov.get("queries_discharged") or 0)
+    run.violations += k.violations
+    run.inconclusive += k.inconclusive
+    for a in k.assumptions:
+        run.assume(a)
     run.cov["explanation"] = ("generated LL(k) tables (PRODUCTIONS + LOOKAHEAD_AUTOMATA read from the parser source the real parol writes) are validated "
                               "against the grammar as written: same bounded language, and table-driven prediction is right at every node of every parse tree of every "
                               "sentence <= N. The step from tables to the real runtime loop is C08 (exact prediction) plus the parser-core Kani harnesses.")
-    run.assume("runtime side (LLKParser::parse_into on these tables) is covered by the engine-K legs, not by this leg; recovery on/off is a runtime option and does not change the tables")
+    run.assume("runtime side: prediction exactness is C08; 'a reported error is never lost' is the add_error kernel leg of this check; the parser loop as a whole (LLKParser::parse_into) is NOT symbolically executed (DESIGN.md 0.5); recovery on/off does not change the tables")
     return run.finish()
 
 
